@@ -12,6 +12,14 @@ TRUST = ('Trusted base: rustc nightly THIR/MIR for this source (same cfgs as the
          'the evidence file.')
 
 CHECKS = {
+    'C09': {
+        'technique': 'path-condition equivalence for the KICK selection, TOPIC write and INVITE record conditions; emission conditions per numeric; effect census; stale-fact (kill) rule for the KICK tail',
+        'level': ('Decides that KICK selects exactly the victims the rank rules allow and removes/announces exactly those, that '
+                  'TOPIC is written/cleared/announced iff member and (not +t or half-op+), that INVITE records and notifies '
+                  'exactly the invitee under the stated condition, each refusal numeric under exactly its condition, and that '
+                  'the rank predicates implement the lattice. Reports the two KICK robustness defects as known findings.'),
+        'note': TRUST + ' Consumption of the invitation by JOIN is decided in C07.',
+    },
     'C01': {
         'technique': 'send-site census with receiver/source/payload provenance terms, guard entailment (sender skipped, prefix bit matches rank set), pairwise exclusivity of fan-outs, table agreement',
         'level': ('Decides the fan-out shape of PRIVMSG/NOTICE for every input: who can receive (member map / matching rank '
